@@ -258,6 +258,10 @@ def _dom4(chk):
            detail="the task starts one loop iteration after the event was dispatched: handlers removed in between (a mode stopped in the same "
                   "drain) must not leave the event without completion - post_queue_async would wait forever",
            construct=f.ident, text="queue runner returns without the completion callback", path=cfg.fmt_path(w, f) if w else None, nontrivial=True)
+    ids_cb = [n.id for n, _ in cbs]
+    twice_ = [n for n, _ in cbs if cfg.path_avoiding(n.id, ids_cb, [], ignore_exc=True) is not None]
+    chk.ob("DOM-4", "the completion callback fires at most once on any path of the queue runner", not twice_, f.where(twice_[0].ast) if twice_ else f.where(),
+           detail="a second call site is reachable after %s" % twice_[0].text(40) if twice_ else "", construct=f.ident, text="completion callback twice")
     for n, c in cbs:
         inloop = any(x is c for st in head.ast.body for x in ast.walk(st))
         chk.ob("DOM-4", "the completion callback is outside the handler loop (fires once)", not inloop or not cfg.path_avoiding(n.id, [head.id], [], ignore_exc=True),
@@ -786,6 +790,7 @@ def battery():
     MC = "mpf/core/mode_controller.py"
     G = "mpf/modes/game/code/game.py"
     return [
+        M("early completion falls through to the normal completion", EV, "            if callback:\n                callback(**kwargs)\n            return\n\n        # Now let's call", "            if callback:\n                callback(**kwargs)\n\n        # Now let's call", "DOM-4"),
         M("relay player keeps the waits it released", "mpf/config_players/queue_relay_player.py", "            queue.clear()\n\n        self._reset_instance_dict(context)\n", "            queue.clear()\n", "PAIR-2"),
         M("stop callbacks removed from the list while it is walked", "mpf/core/mode.py", "        for callback in self.stop_callbacks:\n            callback()\n\n        self.stop_callbacks = []\n", "        for callback in self.stop_callbacks:\n            self.stop_callbacks.remove(callback)\n            callback()\n", ("ITERMUT-0", "PAIR-2")),
         M("handler list re-sorted only when the raw priority says so", EV, "        if len(self.registered_handlers[event]) > 1:\n            self.registered_handlers[event].sort(key=lambda x: x.priority, reverse=True)", "        if len(self.registered_handlers[event]) > 1 and self.registered_handlers[event][-2].priority < priority:\n            self.registered_handlers[event].sort(key=lambda x: x.priority, reverse=True)", "SORT-1"),
